@@ -167,9 +167,11 @@ structure SetOut where
   cam : Cam
 deriving Repr
 
-/-- `simcam_set` -/
-def simcamSet (c : Cam) (settings : Props) : SetOut :=
-  let settings := if settings.binning = 0 then { settings with binning := 1 } else settings
+/-- the first statement of `simcam_set`: `if (!settings->binning) settings->binning = 1;` -/
+def normBinning (s : Props) : Props := if s.binning = 0 then { s with binning := 1 } else s
+
+/-- `simcam_set` after the binning default has been written into `settings` -/
+def simcamSetCore (c : Cam) (settings : Props) : SetOut :=
   if popcountU8 settings.binning ≠ 1 then
     { ok := false, settings := settings, fired := false, cam := c }
   else if bytesOfType settings.pixelType = 0 then
@@ -194,6 +196,9 @@ def simcamSet (c : Cam) (settings : Props) : SetOut :=
     let nbytes := alignedBytesOfImage (fullShape c2)
     { ok := true, settings := settings, fired := decide fired,
       cam := { c2 with frameBuf := some nbytes, renderBuf := some nbytes } }
+
+/-- `simcam_set` -/
+def simcamSet (c : Cam) (settings : Props) : SetOut := simcamSetCore c (normBinning settings)
 
 /-- `simcam_get` -/
 def simcamGet (c : Cam) : Props := c.props
